@@ -311,7 +311,7 @@ def run_property(pid, tier, seed, jobs=None, replay=None):
 
     for mech, v, k in hits:
         print("KNOWN-FINDING: property=%s %s [%s]" % (pid, k.get("what", mech), mech))
-    rdir = os.path.join(VERIF, "replays", pid)
+    rdir = os.path.join(os.environ.get("VERIF_EVIDENCE_DIR") or VERIF, "replays", pid)
     for mech, v, _ in unknown:
         os.makedirs(rdir, exist_ok=True)
         path = os.path.join(rdir, slug(mech) + ".json")
@@ -375,7 +375,8 @@ def write_evidence(pid, tier, seed, mod, merged, wall, nviol, known_hit, inconcl
         pass
     except Exception as e:      # written anyway; an invalid file counts as no evidence
         sys.stderr.write("evidence for %s does not validate: %s\n" % (pid, str(e)[:300]))
-    os.makedirs(os.path.join(VERIF, "evidence"), exist_ok=True)
-    with open(os.path.join(VERIF, "evidence", pid + ".json"), "w") as f:
+    edir = os.environ.get("VERIF_EVIDENCE_DIR") or os.path.join(VERIF, "evidence")
+    os.makedirs(edir, exist_ok=True)
+    with open(os.path.join(edir, pid + ".json"), "w") as f:
         json.dump(ev, f, indent=1)
         f.write("\n")
